@@ -8,10 +8,22 @@ package libp2pwebtransport
 // certificate manager over virtual time, engine E1). The two bounded-cost parts run first so that the
 // manager search owns whatever is left of the time budget.
 
-import "testing"
+import (
+	"testing"
+	"time"
+)
 
 func TestVerifC18(t *testing.T) {
-	c18Verifier(t)
-	c18Dial(t)
+	t0 := time.Now()
+	rv := c18Verifier(t)
+	t1 := time.Now()
+	rd := c18Dial(t)
+	t2 := time.Now()
+	// flushed after the manager part (record order manager, dial, verifier); wall_s of these two records therefore
+	// spans the whole run, their own duration is noted
+	rv.Note("this part alone took %.2fs", t1.Sub(t0).Seconds())
+	rd.Note("this part alone took %.2fs", t2.Sub(t1).Seconds())
+	defer rv.Flush()
+	defer rd.Flush()
 	c18Manager(t)
 }
